@@ -16,6 +16,19 @@ Monitors
                    the generator matrices *as assigned* (column convention)
                    applied to the column vector of p.
   matrix-product   (P, cross monitor of C04, not deciding here).
+
+Round 4 additions (all under the monitors above):
+  dual-objects     objects carrying DUAL data (ConvexPolygon built with an explicit
+                   dual vector, generic ProjectiveObject with dual_ndims = 1): the
+                   three laws on primary, derived AND dual data, dual rows compared
+                   projectively (keys action-laws/<law>/dual).
+  exact-dyadic     badly scaled matrices (entries of ONE matrix spanning > 2^42,
+                   cond ~ 1e25) on which every operation is exact: the laws with a
+                   tolerance that does not scale with the condition number.
+  enumerations     (in words) every enumeration route of a representation
+                   (automaton_accepted default / start_state / end_state, maxlen,
+                   with and without words, freely_reduced_elements): element i acts
+                   on a point as the matrix of word i.
 """
 import numpy as np
 
@@ -23,7 +36,9 @@ from ..run import Workload
 from .. import attach
 from ..ref import hyp as rh
 from ..ref import proj as rp
+from ..ref import dyadic as dy
 from ..gen import projobjs as G
+from ..gen import c03extra as GX
 from . import c04
 
 ID = "C03"
@@ -34,10 +49,23 @@ RULE = ("law cases = (object class, dimension 1..4, composite shape, shapes of A
         "(representation class, #generators<=3, word length<=12, point shape); "
         "matrices are non-symmetric and non-commuting; non-trivial = A, B != identity "
         "and AB != BA; distinct = distinct (law, class, dimension, shapes, field) "
-        "signatures")
+        "signatures; dual cases = (ConvexPolygon with explicit dual vector | generic "
+        "ProjectiveObject with dual rank 1, dimension, composite shape, shapes of A, B, "
+        "field); exact-dyadic cases = (form of the badly scaled matrix: diagonal / "
+        "monomial / one transvection / powers of a moderate generator, spread >= 2^42, "
+        "projective object class with small integer coordinates, shapes); enumeration "
+        "cases = (route default/start_state/end_state/freely_reduced, maxlen, with_words, "
+        "free automaton | random deterministic automaton over the generator letters)")
 ASSUMPTIONS = [
-    "ConvexPolygon (dual data, constructor re-orders vertices) is not in the "
-    "property's list of object kinds and is excluded",
+    "ConvexPolygon is a polygon: it is driven with an explicit dual vector (a chart "
+    "containing a genuinely convex polygon), the only construction route that does "
+    "not re-order vertices; its dual data is judged by the three laws only (the "
+    "property does not say HOW dual data transforms; whether the pairing "
+    "<dual, vertex> is preserved is recorded as a diagnostic, not judged)",
+    "exact-dyadic class: entries 0 or +-2^k, one transvection at most, small integer "
+    "coordinates; every product is certified free of rounding by gtmon.ref.dyadic "
+    "(bit-window test), so the tolerance is the flat 1e-10 whatever the condition "
+    "number; cases whose certificate fails are skipped",
     "projective comparison: per unit row up to a non-zero (complex) scalar, per "
     "matrix for transformations; a tangent vector (p,v) equals (sp,tv) iff st>0",
     "derived data of hyperbolic objects is required to follow the primary data "
@@ -248,13 +276,19 @@ def wl_laws(run, rng, idx):
 
 
 def check_laws(run, mon, kind, n, oshape, ashape, bshape, tkind, cx, raw, X, A, B, MA, MB,
-               case, idx, label=None):
+               case, idx, label=None, exact_tol=None, MAB_inv=None):
     """the law triples for one (X, A, B); MA, MB are the row matrices of A, B
-    known independently of the calls under test."""
+    known independently of the calls under test.  exact_tol: flat tolerance for
+    cases certified free of rounding (then MAB_inv is the exact row matrix of
+    (A@B)^-1, known by construction)."""
     from geometry_tools import projective as P, hyperbolic as H
-    cA = float(np.max(np.linalg.cond(MA)))
-    cB = float(np.max(np.linalg.cond(MB)))
+    with np.errstate(all="ignore"):
+        cA = float(np.max(np.linalg.cond(MA)))
+        cB = float(np.max(np.linalg.cond(MB)))
     tol = BASE_TOL * (1.0 + cA * cB)
+    tolA = BASE_TOL * max(cA, 1.0)
+    if exact_tol is not None:
+        tol = tolA = exact_tol
     sig = (kind, n, oshape, ashape, bshape, label or tkind, "complex" if cx else "real")
 
     # non-triviality of the draw (independent of the library)
@@ -314,7 +348,8 @@ def check_laws(run, mon, kind, n, oshape, ashape, bshape, tkind, cx, raw, X, A, 
     mon.judge(rp.max_mat_dev(AiA.proj_data, eye), tol, "action-laws/inverse/transformation",
               "A.inv()@A is not the identity", case)
     ABi = AB.inv()
-    mon.judge(rp.max_mat_dev(ABi.proj_data, np.linalg.inv(_row_product(MA, MB))),
+    mon.judge(rp.max_mat_dev(ABi.proj_data, np.linalg.inv(_row_product(MA, MB))
+                             if MAB_inv is None else MAB_inv),
               tol, "action-laws/inverse/of-product",
               "(A@B).inv() is not the inverse of the product", case)
     run.note_class("inverse", *sig)
@@ -363,7 +398,7 @@ def check_laws(run, mon, kind, n, oshape, ashape, bshape, tkind, cx, raw, X, A, 
     prim = G.primary(kind, raw)
     if prim is not None:
         exp, _ = rp.loop_matrix_product(prim, MA, G.KINDS[kind][2], 2, "elementwise")
-        mon.judge(G.compare_primary(kind, AX.proj_data, exp), BASE_TOL * max(cA, 1.0),
+        mon.judge(G.compare_primary(kind, AX.proj_data, exp), tolA,
                   "action-laws/by-hand/A@X",
                   "A@X is not (column matrix of A)(column vectors of X) for a %s" % kind, case)
         exp2, _ = rp.loop_matrix_product(prim, _row_product(MA, MB), G.KINDS[kind][2], 2, "elementwise")
@@ -488,6 +523,360 @@ def wl_laws_library_maps(run, rng, idx):
 def _row_product(MA, MB):
     """row matrix of A@B: x -> (x MB) MA (elementwise over composite shapes)."""
     return MB @ MA
+
+
+# ---------------------------------------------------------------------------
+# objects carrying dual data
+
+DUAL_KINDS = list(GX.DUAL_KINDS)
+
+
+def same_dual_object(mon, law, kind, L, R, tol, case, want_shape=None):
+    """L ~ R as projective objects with dual data: class, shape, primary rows,
+    derived edges and DUAL rows, each projectively."""
+    key = "action-laws/%s" % law
+    if not mon.require(type(L) is type(R), key + "/class",
+                       "%s: classes differ: %s vs %s" % (law, type(L).__name__, type(R).__name__), case):
+        return False
+    if not mon.require(tuple(L.shape) == tuple(R.shape)
+                       and (want_shape is None or tuple(L.shape) == tuple(want_shape)),
+                       key + "/shape", "%s: composite shapes %r vs %r (expected %r)"
+                       % (law, L.shape, R.shape, want_shape), case):
+        return False
+    ok = mon.judge(rp.max_row_dev(L.proj_data, R.proj_data), tol, key + "/primary",
+                   "%s fails on the primary data of a %s" % (law, kind), case)
+    if GX.DUAL_KINDS[kind][2] == "edges":
+        if mon.require(L.aux_data is not None and R.aux_data is not None, key + "/auxiliary-lost",
+                       "%s: derived data of a %s is missing" % (law, kind), case):
+            ok = mon.judge(rp.max_row_dev(L.aux_data, R.aux_data), tol, key + "/auxiliary",
+                           "%s fails on the auxiliary (derived) data of a %s" % (law, kind), case) and ok
+    else:
+        ok = mon.require(L.aux_data is None and R.aux_data is None, key + "/auxiliary-appeared",
+                         "%s: auxiliary data appeared on a %s" % (law, kind), case) and ok
+    if not mon.require(L.dual_data is not None and R.dual_data is not None, key + "/dual-lost",
+                       "%s: the dual data of a %s is missing on one side" % (law, kind), case):
+        return False
+    dl, dr = np.asarray(L.dual_data), np.asarray(R.dual_data)
+    d = np.asarray(L.proj_data).shape[-1]
+    if not mon.require(dl.shape == dr.shape == tuple(L.shape) + (d,), key + "/dual-shape",
+                       "%s: dual data of shape %r vs %r for a composite of shape %r in dimension %d"
+                       % (law, dl.shape, dr.shape, tuple(L.shape), d - 1), case):
+        return False
+    return mon.judge(rp.max_row_dev(dl, dr), tol, key + "/dual",
+                     "%s fails on the DUAL data of a %s (rows compared up to a scalar)"
+                     % (law, kind), case) and ok
+
+
+def _pairing(obj):
+    """<dual, primary rows> per unit, flattened to (composite..., rows)."""
+    pd = np.asarray(obj.proj_data)
+    dd = np.asarray(obj.dual_data)
+    if pd.ndim == dd.ndim:            # unit rank 1
+        return np.sum(pd * dd, axis=-1)[..., None]
+    return np.einsum("...kd,...d->...k", pd, dd)
+
+
+def wl_dual(run, rng, idx):
+    """the three laws on objects that carry dual data, with general (non
+    orthogonal, non commuting) maps.  Seeded change C03-r4-1: dual data sent to
+    d R^-1 instead of d R^-T -- identity and inverse round trips hold, but
+    (A@B)@X carries d A^-1 B^-1 and A@(B@X) carries d B^-1 A^-1: a right action.
+    Any law-breaking treatment of the third data slot (dropped, not broadcast,
+    transformed by one factor only, ...) shows the same way."""
+    from geometry_tools import projective as P
+    mon = run.monitor("action-laws")
+    kind = DUAL_KINDS[idx % len(DUAL_KINDS)]
+    r = idx // len(DUAL_KINDS)
+    oshape = GX.DUAL_OBJ_SHAPES[r % len(GX.DUAL_OBJ_SHAPES)]
+    cx = GX.DUAL_KINDS[kind][3] and r % 2 == 1
+    r //= len(GX.DUAL_OBJ_SHAPES)
+    ashape, bshape = AB_SHAPES[r % len(AB_SHAPES)]
+    if not compatible(oshape, ashape, bshape):
+        ashape, bshape = (), ()
+    lo = GX.DUAL_KINDS[kind][0]
+    n = lo + (r + idx // 7) % (4 - lo + 1)
+    raw = GX.draw_dual(rng, kind, n, oshape, cx=cx)
+    araw = G.draw(rng, "P.Transformation", n, ashape, cx=cx)
+    braw = G.draw(rng, "P.Transformation", n, bshape, cx=cx)
+    MA, MB = araw["M"], braw["M"]
+    case = {"kind": kind, "dimension": n, "object_shape": list(oshape), "A_shape": list(ashape),
+            "B_shape": list(bshape), "maps": "P.Transformation", "field": "complex" if cx else "real",
+            "X(rows)": raw["X"], "X(dual)": raw["D"], "A(row matrix)": MA, "B(row matrix)": MB}
+    run.current_case = case
+    X = GX.build_dual(kind, raw)
+    A = P.Transformation(MA.copy())
+    B = P.Transformation(MB.copy())
+    cA = float(np.max(np.linalg.cond(MA)))
+    cB = float(np.max(np.linalg.cond(MB)))
+    tol = BASE_TOL * (1.0 + cA * cB)
+    sig = (kind, n, oshape, ashape, bshape, "complex" if cx else "real")
+    if not mon.require(type(X).__name__ == kind.split(".")[1].split("/")[0] and tuple(X.shape) == tuple(oshape)
+                       and X.dual_data is not None
+                       and rp.max_row_dev(X.dual_data, raw["D"]) <= 1e-13
+                       and rp.max_row_dev(X.proj_data, raw["X"]) <= 1e-13,
+                       "action-laws/dual-object/construction",
+                       "a %s built from rows and an explicit dual vector does not carry them" % kind, case):
+        return
+    if idx % 2:
+        B.inv()
+        A.inv()
+    want_shape = np.broadcast_shapes(oshape, ashape, bshape)
+
+    # (A@B)@X ~ A@(B@X)
+    AB = A @ B
+    L = AB @ X
+    R = A @ (B @ X)
+    same_dual_object(mon, "associativity", kind, L, R, tol, case, want_shape)
+    run.note_class("dual-associativity", *sig)
+
+    # identity
+    IX = P.identity(n) @ X
+    same_dual_object(mon, "identity", kind, IX, X, 1e-12, case, oshape)
+    run.note_class("dual-identity", *sig)
+
+    # inverse
+    AX = A @ X
+    back = A.inv() @ AX
+    if tuple(np.broadcast_shapes(oshape, ashape)) == tuple(oshape):
+        same_dual_object(mon, "inverse", kind, back, X, tol, case, oshape)
+    else:
+        for ridx, oi, _ in rp.operand_indices(oshape, ashape, "elementwise"):
+            mon.judge(rp.max_row_dev(back.proj_data[ridx], X.proj_data[oi]), tol,
+                      "action-laws/inverse/primary",
+                      "A.inv()@(A@X) differs from X on the primary data of a %s" % kind, case)
+            if mon.require(back.dual_data is not None
+                           and np.asarray(back.dual_data).shape[:-1] == tuple(back.shape),
+                           "action-laws/inverse/dual-shape",
+                           "A.inv()@(A@X): dual data missing or not on the composite axes", case):
+                mon.judge(rp.max_row_dev(back.dual_data[ridx], X.dual_data[oi]), tol,
+                          "action-laws/inverse/dual",
+                          "A.inv()@(A@X) differs from X on the DUAL data of a %s" % kind, case)
+    run.note_class("dual-inverse", *sig)
+
+    # the primary data by hand, the derived edges by the reference formula
+    exp, _ = rp.loop_matrix_product(np.asarray(raw["X"]), MA, GX.DUAL_KINDS[kind][1], 2, "elementwise")
+    mon.judge(rp.max_row_dev(AX.proj_data, exp), BASE_TOL * max(cA, 1.0), "action-laws/by-hand/A@X",
+              "A@X is not (column matrix of A)(column vectors of X) for a %s" % kind, case)
+    if GX.DUAL_KINDS[kind][2] == "edges" and AX.aux_data is not None:
+        mon.judge(rp.max_row_dev(AX.aux_data, rp.polygon_edges(np.asarray(AX.proj_data))), 1e-7,
+                  "action-laws/derived-data/edges",
+                  "derived data of A@X is not what the reference formula gives for the "
+                  "transformed primary data (%s)" % kind, case)
+
+    # pairwise application: entry [object i][map j] is A[j] @ X[i], dual data
+    # included; the unit objects are rebuilt from the slices of the raw inputs
+    if idx % 2 == 0 and len(oshape) + len(ashape) <= 3:
+        PW = A.apply(X, "pairwise")
+        want_pw = tuple(oshape) + tuple(ashape)
+        if mon.require(type(PW) is type(X) and tuple(PW.shape) == want_pw
+                       and PW.dual_data is not None
+                       and np.asarray(PW.dual_data).shape == want_pw + (n + 1,),
+                       "action-laws/pairwise/class-or-shape",
+                       "A.apply(X,'pairwise') is a %s of shape %r with dual data of shape %r; X is a "
+                       "%s of shape %r, A has shape %r"
+                       % (type(PW).__name__, PW.shape,
+                          None if PW.dual_data is None else np.asarray(PW.dual_data).shape,
+                          type(X).__name__, oshape, ashape), case):
+            for oi in np.ndindex(*oshape):
+                Xi = GX.build_dual(kind, GX.unit_raw(raw, oi))
+                for ai in np.ndindex(*ashape):
+                    E = P.Transformation(MA[ai].copy()) @ Xi
+                    mon.judge(rp.max_row_dev(PW.proj_data[oi + ai], E.proj_data), tol,
+                              "action-laws/pairwise/primary",
+                              "pairwise image differs from A[j]@X[i] on the primary data of a %s" % kind, case)
+                    mon.judge(rp.max_row_dev(PW.dual_data[oi + ai], E.dual_data), tol,
+                              "action-laws/pairwise/dual",
+                              "pairwise image differs from A[j]@X[i] on the DUAL data of a %s" % kind, case)
+            run.note_class("dual-pairwise", *sig)
+
+    # diagnostic only (the property does not state it): a dual vector that is
+    # transported contragrediently keeps its pairing with the primary rows
+    if AX.dual_data is not None and tuple(AX.shape) == tuple(oshape):
+        with np.errstate(all="ignore"):
+            s, t = _pairing(AX), _pairing(X)
+            dev = rp.max_row_dev(s, t) if s.shape[-1] > 1 else 0.0
+        if dev > 1e-6 * max(cA, 1.0):
+            mon.diag("dual data of A@X does not pair with the image rows as the dual data of X "
+                     "pairs with X (dual data is not transported by the inverse transpose)")
+    if idx < 2:
+        run.sample({"kind": kind, "dimension": n, "object_shape": list(oshape),
+                    "A_shape": list(ashape), "B_shape": list(bshape), "X(dual)": raw["D"]})
+
+
+# ---------------------------------------------------------------------------
+# exact dyadic class: badly scaled matrices, no rounding anywhere
+
+DYADIC_KINDS = ["P.Point", "P.Polygon", "P.PointPair", "P.Transformation", "P.Subspace", "P.Simplex"]
+DYADIC_SHAPES = [((), ()), ((3,), ()), ((3,), (3,)), ((2, 3), (3,)), ((), (3,)), ((2, 3), ())]
+
+
+def _dyadic_object(rng, kind, n, oshape):
+    d = n + 1
+    if kind == "P.Transformation":
+        return {"M": GX.small_integer_matrix(rng, oshape, d)}
+    if kind == "P.Point":
+        return {"X": GX.small_integer_rows(rng, oshape, (d,))}
+    k = {"P.Polygon": int(rng.integers(3, 6)), "P.PointPair": 2, "P.Subspace": 2,
+         "P.Simplex": min(3, d)}[kind]
+    return {"X": GX.small_integer_rows(rng, oshape, (k, d))}
+
+
+def wl_dyadic(run, rng, idx):
+    """the laws on the exact dyadic class.  The general workloads bound cond(A)
+    by 50 and let the tolerance grow with it, so nothing there sees what happens
+    to entries that are tiny *relative to the other entries of the same matrix*.
+    Here A = P.D.(I + c e_ij) (entries 0 or +-2^k spanning >= 2^42 inside one
+    matrix, also as the 6th..8th power of a moderate generator) and X has small
+    integer coordinates: inversion, composition and application are exact, so
+    A.inv()@(A@X) ~ X, A.inv()@A ~ id and the action of A.inv() by hand must hold
+    to the flat tolerance whatever cond(A) is (seeded change C03-r4-3: entries of
+    the inverse below 1e-12 x its largest entry flushed to zero)."""
+    from geometry_tools import projective as P
+    mon = run.monitor("action-laws")
+    form = GX.DYADIC_FORMS[idx % len(GX.DYADIC_FORMS)]
+    r = idx // len(GX.DYADIC_FORMS)
+    kind = DYADIC_KINDS[(r + idx) % len(DYADIC_KINDS)]
+    r //= 2
+    oshape, ashape = DYADIC_SHAPES[(r + idx // 3) % len(DYADIC_SHAPES)]
+    n = c04.dims_for(kind, r + idx // 5)
+    d = n + 1
+    if d < 2:
+        n, d = 1, 2
+    if "transvection" in form or form == "block-power":
+        if d < 2:
+            form = "diagonal"
+    a = GX.draw_dyadic(rng, d, form, ashape)
+    b = GX.draw_dyadic_moderate(rng, d, ())
+    raw = _dyadic_object(rng, kind, n, oshape)
+    # row matrices (the library's storage convention), exact transposes
+    MA, MAi = np.swapaxes(a["M"], -1, -2).copy(), np.swapaxes(a["Minv"], -1, -2).copy()
+    MB, MBi = np.swapaxes(b["M"], -1, -2).copy(), np.swapaxes(b["Minv"], -1, -2).copy()
+    case = {"kind": kind, "dimension": n, "object_shape": list(oshape), "A_shape": list(ashape),
+            "B_shape": [], "maps": "exact-dyadic:" + form, "X": raw,
+            "A(row matrix)": MA, "A^-1(row matrix, exact)": MAi, "B(row matrix)": MB}
+    run.current_case = case
+    # certificates: every product the laws involve is free of rounding
+    prim = G.primary(kind, raw)
+    unit = G.KINDS[kind][2]
+    MBA, o1 = dy.matmul_certified(MB, MA)                    # row matrix of A@B
+    MBAi, o2 = dy.matmul_certified(MAi, MBi)
+    xB, o3 = dy.rows_times_certified(prim, MB, unit)
+    xBA, o4 = dy.rows_times_certified(xB, MA, unit)
+    xBA2, o5 = dy.rows_times_certified(prim, MBA, unit)
+    xA, o6 = dy.rows_times_certified(prim, MA, unit)
+    xAAi, o7 = dy.rows_times_certified(xA, MAi, unit)
+    xAi, o8 = dy.rows_times_certified(prim, MAi, unit)
+    okc = (a["ok"] and b["ok"] and o1 and o2 and o3 and o4 and o5 and o6 and o7
+           and GX.certify_inverse(MBA, MBAi)
+           and np.array_equal(xBA, xBA2)
+           and np.array_equal(xAAi, np.broadcast_to(prim, xAAi.shape)))
+    if not okc:
+        return mon.skip("exact-dyadic: a product is not certified free of rounding")
+    X = G.build(kind, raw)
+    A = P.Transformation(MA.copy())
+    B = P.Transformation(MB.copy())
+    check_laws(run, mon, kind, n, oshape, ashape, (), "P.Transformation", False, raw, X, A, B,
+               MA, MB, case, idx, label="exact-dyadic:" + form, exact_tol=BASE_TOL, MAB_inv=MBAi)
+    # the inverse acts as the exact inverse matrix, by hand
+    Ai = A.inv()
+    mon.judge(rp.max_mat_dev(Ai.proj_data, MAi), BASE_TOL, "action-laws/inverse/by-hand/matrix",
+              "A.inv() is not the (exactly representable) inverse matrix of a badly scaled A", case)
+    # A.inv() @ X by hand and the other order A @ (A.inv() @ X) ~ X: only when
+    # applying the inverse to X itself is free of rounding as well (a row of the
+    # inverse may mix 1/d_i and c/d_j of very different size)
+    xAiA, o9 = dy.rows_times_certified(xAi, MA, unit)
+    if o8 and o9 and np.array_equal(xAiA, np.broadcast_to(prim, xAiA.shape)):
+        AiX = Ai @ X
+        mon.judge(G.compare_primary(kind, AiX.proj_data, xAi), BASE_TOL,
+                  "action-laws/inverse/by-hand/A.inv()@X",
+                  "A.inv()@X is not (exact inverse matrix)(column vectors of X) for a %s" % kind, case)
+        fwd = A @ AiX
+        if tuple(np.broadcast_shapes(oshape, ashape)) == tuple(oshape):
+            same_object(run, mon, "inverse-right", kind, fwd, X, BASE_TOL, case)
+        run.note_class("exact-dyadic-inverse-first", form, kind, n)
+    run.note_class("exact-dyadic", form, kind, n, oshape, ashape)
+
+    # the same class reached as the image of a word: rep['a'*k] with a moderate
+    # dyadic generator a (entries 2^+-7 at most), b monomial
+    if idx % 2 == 0:
+        _dyadic_words(run, rng, idx, n)
+
+
+def _dyadic_words(run, rng, idx, n):
+    from geometry_tools import projective as P
+    mon = run.monitor("representation-action")
+    d = n + 1
+    k = 6 + (idx // 2) % 3
+    bits = -(-42 // k)
+    gform = "diagonal" if (idx // 2) % 2 == 0 else "diagonal+transvection"
+    fa = GX._factors(rng, d, gform, (bits, bits + 1), cmax=4)
+    ga, gai, oa = GX._product(fa)
+    gb = GX.draw_dyadic_moderate(rng, d, ())
+    gens = {"a": ga, "b": gb["M"]}
+    invs = {"a": gai, "b": gb["Minv"]}
+    rep = P.ProjectiveRepresentation()
+    rep["a"] = P.Transformation(ga.copy(), column_vectors=True)
+    rep["b"] = P.Transformation(gb["M"].T.copy())
+    pshape = c04.pick([(), (3,), (2, 3)], idx // 4)
+    x = GX.small_integer_rows(rng, pshape, (d,))
+    p = P.Point(x.copy())
+    others = ["A" * k, "b" + "a" * k, "a" * k + "B", "B" + "A" * k + "b"]
+    words = ["a" * k, others[(idx // 2) % 4], others[(idx // 2 + 1 + (idx // 8) % 3) % 4]]
+    case = {"representation": "ProjectiveRepresentation", "dimension": n,
+            "generators(column)": gens, "point": x, "words": words, "class": "exact-dyadic"}
+    run.current_case = case
+    inv_word = lambda w: "".join(c.swapcase() for c in reversed(w))
+    letter = lambda ch: gens[ch] if ch.islower() else invs[ch.lower()]
+    memo = {"": (np.eye(d), True)}
+
+    def cert(w):
+        """certified product along w; the powers a^m / A^m are chained (and
+        shared between the words), the monomial letters b, B are multiplied on
+        afterwards -- every contiguous sub-word of w is then an exact product
+        too (a monomial factor adds nothing up), whichever way a product along
+        the word is bracketed."""
+        if w in memo:
+            return memo[w]
+        if w[0] in "bB":
+            M, o = cert(w[1:])
+            R, o2 = dy.matmul_certified(letter(w[0]), M)
+        else:
+            M, o = cert(w[:-1])
+            R, o2 = dy.matmul_certified(M, letter(w[-1]))
+        memo[w] = (R, bool(o and o2))
+        return memo[w]
+    for w in words:
+        M, o1 = cert(w)
+        Mi, o2 = cert(inv_word(w))
+        ok = bool(oa and gb["ok"] and o1 and o2)
+        y, o3 = dy.rows_times_certified(x, M.T, 1)
+        z, o4 = dy.rows_times_certified(y, Mi.T, 1)
+        yi, o5 = dy.rows_times_certified(x, Mi.T, 1)
+        if not (ok and o3 and o4 and GX.certify_inverse(M, Mi) and np.array_equal(z, x)):
+            mon.skip("exact-dyadic: a product is not certified free of rounding")
+            continue
+        cw = dict(case, word=w)
+        T = rep[w]
+        img = T @ p
+        mon.judge(rp.max_row_dev(img.proj_data, y), BASE_TOL, "representation-action/word-image",
+                  "rep[w]@p differs from (product of the assigned generator matrices along w)"
+                  "(column vector of p)", cw)
+        Ti = T.inv()
+        mon.judge(rp.max_row_dev((Ti @ img).proj_data, x), BASE_TOL,
+                  "representation-action/word-inverse/round-trip",
+                  "rep[w].inv() @ (rep[w] @ p) differs from p (badly scaled, exactly representable word)", cw)
+        if o5:
+            mon.judge(rp.max_row_dev((Ti @ p).proj_data, yi), BASE_TOL,
+                      "representation-action/word-inverse/image",
+                      "rep[w].inv() @ p differs from (inverse of the word's matrix)(column vector of p)", cw)
+            mon.judge(rp.max_row_dev((Ti @ p).proj_data, (rep[inv_word(w)] @ p).proj_data), BASE_TOL,
+                      "representation-action/word-inverse/inverse-word",
+                      "rep[w].inv() @ p differs from rep[w^-1] @ p", cw)
+        mon.judge(rp.max_mat_dev((Ti @ T).proj_data, np.eye(d)), BASE_TOL,
+                  "representation-action/word-inverse/identity",
+                  "rep[w].inv() @ rep[w] is not the identity", cw)
+        run.note_class("exact-dyadic-word", gform, n, len(w), pshape,
+                       dy.spread(M) >= 2.0 ** 40)
 
 
 # ---------------------------------------------------------------------------
@@ -619,6 +1008,10 @@ def wl_words(run, rng, idx):
                               "representation-action/pairwise-word-image",
                               "elements(words).apply(p,'pairwise')[i][j] differs from word j's "
                               "matrix applied to point i", dict(case, word=w))
+    # every enumeration route returns, next to each word, the element that acts
+    # as that word's matrix
+    check_enumerations(run, mon, rng, idx, rep, gens, letters, hyp, p, x, pshape, case)
+    run.current_case = case
     # a subgroup representation acts through the substituted words, whichever way
     # its inverse generators are obtained
     if ngen >= 2 and mixed == "none":
@@ -647,8 +1040,159 @@ def wl_words(run, rng, idx):
         run.sample({"representation": type(rep).__name__, "dimension": n, "words": words})
 
 
+ENUM_ROUTES = ["default", "start_state", "end_state", "freely_reduced"]
+
+
+def check_enumerations(run, mon, rng, idx, rep, gens, letters, hyp, p, x, pshape, case):
+    """the representation clause on the enumeration routes: the elements
+    returned by automaton_accepted (from the start state, from a prescribed
+    start_state, backwards from a prescribed end_state; words up to / of exactly
+    the length; with or without the word list) and by freely_reduced_elements
+    act on a point as the matrices of the words returned with them.  Which words
+    are returned is C06's business; here only 'element i is the image of word
+    i'.  Seeded change C03-r4-2: on the end_state route the edge element
+    multiplied on the wrong side, so element i was the image of word i
+    reversed."""
+    from geometry_tools import projective as P, hyperbolic as H
+    from geometry_tools.automata import fsa
+    want_T = H.Isometry if hyp else P.Transformation
+    ngen = len(letters)
+    length = 3 if ngen <= 2 else 2
+    free = (idx // 2) % 2 == 0
+    if free:
+        F = fsa.free_automaton(list(letters))
+        states = list(letters) + [l.upper() for l in letters]
+        auto = "free"
+    else:
+        ns = 2 + idx % 3
+        graph = GX.random_graph(rng, letters, ns)
+        F = fsa.FSA(graph, start_vertices=[0])
+        states = list(range(ns))
+        auto = "random-deterministic"
+    st = states[int(rng.integers(0, len(states)))]
+    calls = []
+    for route in ENUM_ROUTES:
+        if route == "freely_reduced" and not free:
+            continue
+        for maxlen in (True, False):
+            calls.append((route, maxlen))
+    # three of the calls per case, rotating with the case index; one of them is
+    # repeated without the word list
+    calls = [calls[(idx + o) % len(calls)] for o in (0, 3, 5)]
+    nowords = calls[(idx // 3) % len(calls)]
+    x2 = np.asarray(x)
+    for route, maxlen in calls:
+        kw = {"maxlen": maxlen}
+        if route == "start_state":
+            kw["start_state"] = st
+        elif route == "end_state":
+            kw["end_state"] = st
+        if (idx // 4) % 2 and route != "freely_reduced":
+            kw["edge_words"] = False
+        c2 = dict(case, enumeration=route, automaton=auto, state=st if route.endswith("state") else None,
+                  length=length, options={k: v for k, v in kw.items() if not k.endswith("state")})
+        if not free:
+            c2["automaton_graph"] = {str(k): {lab: int(w) for lab, w in nb.items()} for k, nb in graph.items()}
+        run.current_case = c2
+        key = "representation-action/enumeration/%s" % route
+        if route == "freely_reduced":
+            res = rep.freely_reduced_elements(length, with_words=True, **kw)
+        else:
+            res = rep.automaton_accepted(F, length, with_words=True, **kw)
+        if not mon.require(isinstance(res, tuple) and len(res) == 2, key + "/result-form",
+                           "with_words=True does not return (elements, words)", c2):
+            continue
+        Ts, ws = res
+        ws = list(ws)
+        if not ws:
+            mon.skip("enumeration returned no word")
+            continue
+        if not mon.require(type(Ts) is want_T and tuple(Ts.shape) == (len(ws),),
+                           key + "/class-or-shape",
+                           "%s returns a %s of shape %r next to %d words"
+                           % (route, type(Ts).__name__, Ts.shape, len(ws)), c2):
+            continue
+        img = Ts.apply(p, "pairwise")
+        if not mon.require(type(img) is type(p) and tuple(img.shape) == tuple(pshape) + (len(ws),),
+                           key + "/image-class-or-shape",
+                           "elements.apply(p,'pairwise') is a %s of shape %r" % (type(img).__name__, img.shape), c2):
+            continue
+        # all words at once: matrices along the words, images of the point,
+        # cancellation factors (the witness dict is only built on failure)
+        pairs = [rp.word_matrix(gens, w) for w in ws]
+        Mst = np.stack([m for m, _ in pairs])
+        scl = np.array([sc for _, sc in pairs])
+        exp = np.einsum("kij,...j->...ki", Mst, x2)                 # pshape + (k, d)
+        with np.errstate(all="ignore"):
+            kap = scl * np.linalg.norm(x2, axis=-1)[..., None] / np.linalg.norm(exp, axis=-1)
+            kap = np.max(kap.reshape(-1, len(ws)), axis=0)
+            dimg = np.max(np.asarray(rp.row_dev(img.proj_data, exp)).reshape(-1, len(ws)), axis=0) \
+                if np.asarray(img.proj_data).shape == exp.shape else np.full(len(ws), np.inf)
+            dmat = np.asarray(rp.mat_dev(np.swapaxes(np.asarray(Ts.proj_data), -1, -2), Mst)).reshape(-1)
+            nrm = np.linalg.norm(Mst, 2, axis=(-2, -1))
+        if dmat.shape != (len(ws),):
+            dmat = np.full(len(ws), np.inf)
+        mats, tols, broken = [], [], False
+        for j, w in enumerate(ws):
+            kappa = float(kap[j])
+            if not np.isfinite(kappa) or kappa > 1e6:
+                mon.skip("ill-conditioned word (cancellation > 1e6)")
+                mats.append(None)
+                tols.append(None)
+                continue
+            mats.append(Mst[j])
+            tols.append(1e-11 * max(scl[j] / max(nrm[j], 1e-300), 1.0) * max(len(w), 1))
+            t1 = 1e-11 * max(kappa, 1.0) * max(len(w), 1)
+            bad = not (dimg[j] <= t1 and dmat[j] <= tols[-1])
+            cw = dict(c2, word=w, position=j) if bad else c2
+            ok = mon.judge(dimg[j], t1, key + "/word-image",
+                           "element i of the enumeration, applied to p, differs from (matrix of the "
+                           "word returned at position i)(column vector of p)", cw)
+            ok = mon.judge(dmat[j], tols[-1], key + "/word-matrix",
+                           "element i of the enumeration is not the product of the assigned generator "
+                           "matrices along the word returned at position i", cw) and ok
+            if not ok:
+                broken = True
+                break
+        run.note_class("enumeration", type(rep).__name__, route, maxlen, auto, ngen, pshape,
+                       kw.get("edge_words", True))
+        if broken or (route, maxlen) != nowords:
+            continue
+        # without the word list: the same elements (position by position; a
+        # different order is accepted if the elements match as a multiset)
+        if route == "freely_reduced":
+            T2 = rep.freely_reduced_elements(length, **kw)
+        else:
+            T2 = rep.automaton_accepted(F, length, **kw)
+        if not mon.require(type(T2) is want_T and tuple(T2.shape) == (len(ws),),
+                           key + "/no-words/class-or-shape",
+                           "%s without words returns a %s of shape %r; with words there are %d"
+                           % (route, type(T2).__name__, getattr(T2, "shape", None), len(ws)), c2):
+            continue
+        got = np.swapaxes(np.asarray(T2.proj_data), -1, -2)
+        todo = [j for j in range(len(ws)) if mats[j] is not None]
+        bad = [j for j in todo if not rp.max_mat_dev(got[j], mats[j]) <= tols[j]]
+        if bad:
+            # multiset matching of the misplaced elements
+            pool = list(bad)
+            for j in bad:
+                hit = next((q for q in pool if rp.max_mat_dev(got[j], mats[q]) <= tols[q]), None)
+                if hit is None:
+                    mon.fail(key + "/no-words/element",
+                             "an element returned without the word list is the image of none of the "
+                             "words the same call returns with with_words=True", dict(c2, position=j))
+                    break
+                pool.remove(hit)
+            else:
+                mon.ok(0.0)
+        else:
+            mon.ok(0.0)
+
+
 WORKLOADS = [
     Workload("laws", wl_laws, quick=1300, thorough=20000),
     Workload("laws-library-maps", wl_laws_library_maps, quick=500, thorough=8000),
     Workload("words", wl_words, quick=300, thorough=5000),
+    Workload("dual-objects", wl_dual, quick=210, thorough=4000),
+    Workload("exact-dyadic", wl_dyadic, quick=180, thorough=3000),
 ]
